@@ -46,6 +46,7 @@ class PandasJointUniqueness(Contract):
 
         def reshape(I, failure_cases, ignore_na=True):
             cur().ghost["reported"] = failure_cases
+            cur().ghost["reported_ignoring_nulls"] = ignore_na
             return core.SAny(name="failure_cases")
 
         I.models[id(resolve_target(RESHAPE))] = reshape
@@ -68,6 +69,9 @@ class PandasJointUniqueness(Contract):
         out = {"is_a_result": isinstance(result, Obj) and result.cls is CoreCheckResult, "verdict": Iff(passed, want)}
         if passed is not True:
             out["reason"] = Implies(Not(passed), result.attrs["reason_code"] is SchemaErrorReason.DUPLICATES)
+        if "reported" in cur().ghost:
+            # rows that repeat each other in a NULL cell are duplicates as well: the report keeps those cells (C02)
+            out["duplicated_nulls_are_reported_as_well"] = cur().ghost.get("reported_ignoring_nulls") is False
         return out
 
 
